@@ -6,7 +6,8 @@ CONSTANTS
   TrimDepth = 2
   MaxSteps = 14
   WithCrash = TRUE
-  CrashInHeadWindow = FALSE
+  HeadInBatch = TRUE
+  CrashInHeadWindow = TRUE
   SpendTrimCandidate = FALSE
 VIEW view
 INVARIANTS TypeOK ReorgEqualsFreshReplay CommitmentEqualsContent Recoverable SpentAtMostOnce
